@@ -829,7 +829,7 @@ class CE:
                 return o.shape
             if attr == "T":
                 return o.transpose()
-            if attr in ("fill", "copy", "sum", "any", "all", "transpose", "astype", "reshape", "tolist", "setflags", "nonzero", "flatten", "ravel"):
+            if attr in ("fill", "copy", "sum", "any", "all", "transpose", "astype", "reshape", "tolist", "setflags", "nonzero", "flatten", "ravel", "tobytes", "view", "item"):
                 return ("matmethod", o, attr)
             if attr == "dtype":
                 return ExtName("numpy.int8")
@@ -950,11 +950,13 @@ class CE:
             allowed = {str: {"split", "replace", "startswith", "endswith", "lstrip", "rstrip", "strip", "join", "format", "count", "index", "find", "lower", "upper", "zfill"},
                        list: {"append", "extend", "copy", "index", "count", "reverse", "pop", "insert", "sort"},
                        dict: {"get", "items", "keys", "values", "copy", "update", "setdefault"},
-                       tuple: {"index", "count"}, int: {"bit_count", "bit_length"}, set: {"add", "union"},
+                       tuple: {"index", "count"}, int: {"bit_count", "bit_length", "to_bytes"}, set: {"add", "union"},
                        re.Pattern: {"match", "fullmatch", "search", "findall", "finditer", "split", "sub"},
                        re.Match: {"group", "groups", "groupdict", "start", "end", "span"}}
             if isinstance(o, re.Pattern) and not all(isinstance(a, (str, int)) for a in list(args) + list(kwargs.values())):
                 raise Unsupported(f"regular expression method {name} on non-string arguments")
+            if isinstance(o, int) and not isinstance(o, bool) and name == "item" and not args:
+                return o
             for ty, names in allowed.items():
                 if isinstance(o, ty) and name in names:
                     try:
@@ -994,6 +996,26 @@ class CE:
             return (Mat([i for i, r in enumerate(m.d) for x in r if x], 1), Mat([j for r in m.d for j, x in enumerate(r) if x], 1))
         if name in ("flatten", "ravel"):
             return Mat(m.flat(), 1)
+        if name == "item" and not args:
+            fl = m.flat()
+            if len(fl) != 1:
+                raise CERaise("ValueError", "can only convert an array of size 1 to a Python scalar")
+            return fl[0]
+        if name == "view":
+            r = m.copy()
+            want = args[0] if args else kwargs.get("dtype")
+            if want is bool or (isinstance(want, ExtName) and want.dotted.split(".")[-1] in ("bool", "bool_")):
+                if not all(x in (0, 1) for x in m.flat()):
+                    raise Unsupported("view(bool) of values other than 0/1")
+                r.is_bool = True
+                return r
+            raise Unsupported(f"view as {want!r}")
+        if name == "tobytes":
+            if kwargs.get("order", args[0] if args else "C") not in ("C", None):
+                raise Unsupported("tobytes with a non-C order")
+            if not getattr(m, "is_u8", False) and not all(-128 <= x <= 127 for x in m.flat()):
+                raise Unsupported("tobytes of values outside int8")
+            return bytes(x & 0xFF for x in m.flat())
         if name == "reshape":
             shape = args[0] if len(args) == 1 and isinstance(args[0], tuple) else tuple(args)
             flat = m.flat()
@@ -1007,6 +1029,13 @@ class CE:
 
     def call_ext(self, dotted, args, kwargs, e, f):
         name = dotted.split(".")[-1]
+        if dotted == "builtins.int.from_bytes":
+            if not (args and isinstance(args[0], (bytes, bytearray))):
+                raise Unsupported("int.from_bytes of a non-bytes value")
+            try:
+                return int.from_bytes(args[0], *args[1:], **kwargs)
+            except (TypeError, ValueError) as ex:
+                raise CERaise(type(ex).__name__, str(ex))
         if dotted.startswith("builtins."):
             safe = {"range": range, "len": len, "list": list, "tuple": tuple, "int": int, "bool": bool, "str": str, "abs": abs,
                     "min": min, "max": max, "sum": sum, "any": any, "all": all, "enumerate": enumerate, "zip": zip,
@@ -1095,6 +1124,8 @@ class CE:
             return Mat.zeros(tuple(shape) if isinstance(shape, (list, tuple)) else shape)
         if name in ("array", "asarray"):
             src = args[0]
+            if isinstance(src, (int, bool)):
+                return int(src)        # zero-dimensional: stands for the scalar (.item() gives it back)
             if isinstance(src, Mat):
                 return src.copy()
             if isinstance(src, RowView):
@@ -1161,6 +1192,27 @@ class CE:
             return Mat([[x * y for y in bv] for x in av], 2)
         if name == "arange":
             return Mat(list(range(*args)), 1)
+        if name == "packbits" and isinstance(args[0], Mat) and args[0].ndim == 1 and kwargs.get("axis") is None:
+            bits = [1 if x else 0 for x in args[0].d]
+            order = kwargs.get("bitorder", "big")
+            out = []
+            for i in range(0, len(bits), 8):
+                chunk = bits[i:i + 8] + [0] * (8 - len(bits[i:i + 8]))
+                out.append(sum(b << (k if order == "little" else 7 - k) for k, b in enumerate(chunk)))
+            r = Mat(out, 1)
+            r.is_u8 = True
+            return r
+        if name == "unpackbits" and isinstance(args[0], Mat) and args[0].ndim == 1 and kwargs.get("axis") is None:
+            order = kwargs.get("bitorder", "big")
+            out = []
+            for x in args[0].d:
+                out += [(x >> (k if order == "little" else 7 - k)) & 1 for k in range(8)]
+            cnt = kwargs.get("count")
+            return Mat(out[:cnt] if cnt is not None else out, 1)
+        if name == "frombuffer" and isinstance(args[0], (bytes, bytearray)):
+            r = Mat(list(args[0]), 1)
+            r.is_u8 = True
+            return r
         if name in ("triu", "tril") and isinstance(args[0], Mat) and args[0].ndim == 2:
             k = kwargs.get("k", args[1] if len(args) > 1 else 0)
             keep = (lambda i, j: j - i >= k) if name == "triu" else (lambda i, j: j - i <= k)
